@@ -280,6 +280,10 @@ impl FormatSpec {
         let (alternate_form, text) = parse_alternate_form(text);
         let (zero, text) = parse_zero(text);
         let (width, text) = parse_number(text)?;
+        if width.is_some_and(|width| width > i32::MAX as usize) {
+            // padding is computed in i32, like the precision
+            return Err(FormatSpecError::DecimalDigitsTooMany);
+        }
         let (grouping_option, text) = FormatGrouping::parse(text);
         let (precision, text) = parse_precision(text)?;
         let (format_type, text) = FormatType::parse(text);
